@@ -62,6 +62,27 @@ class UserFault(Exception):
         self.name = name
 
 
+# the injected failure is an instance of one of these classes (chosen by the serial number of the failing call): whatever
+# class a user function raises - also one the library uses for its own control flow - must reach the caller unchanged
+class UserFaultStop(UserFault, StopIteration):
+    pass
+
+
+class UserFaultKey(UserFault, KeyError):
+    pass
+
+
+class UserFaultAssert(UserFault, AssertionError):
+    pass
+
+
+class UserFaultValue(UserFault, ValueError):
+    pass
+
+
+FAULT_CLASSES = [UserFault, UserFaultStop, UserFaultKey, UserFault, UserFaultAssert, UserFaultValue, UserFaultStop]
+
+
 class SymWorld:
     """The registry of symbolic functions of one case, their call log and fault schedule."""
 
@@ -69,6 +90,7 @@ class SymWorld:
         self.log = []
         self.serial = 0
         self.fail_at = set()
+        self.fault_class = None   # None: by the serial number of the failing call
         self.fns = {}
         self.names = {}  # id(function object) -> name
         self.impure = set()
@@ -90,7 +112,7 @@ class SymWorld:
             kwt = tuple(sorted(kw.items()))
             world.log.append((name, tuple(pos), kwt))
             if k in world.fail_at:
-                raise UserFault(name)
+                raise (world.fault_class or FAULT_CLASSES[k % len(FAULT_CLASSES)])(name)
             if name in world.consts:
                 return world.consts[name]
             if name in world.tables:
